@@ -337,10 +337,10 @@ func (g *richGen) flows() []any {
 				e := map[string]any{"uuid": ruuid(kExit, id*10+k+1)}
 				// mostly forward, sometimes anywhere, sometimes nowhere
 				switch {
-				case r.Chance(1, 5):
-				case r.Chance(3, 4) && j+1 < nn:
+				case r.Chance(1, 6):
+				case j+1 < nn && r.Chance(5, 6):
 					e["destination_uuid"] = ruuid(kNode, ids[j+1+r.Intn(nn-j-1)])
-				default:
+				case r.Chance(1, 4):
 					e["destination_uuid"] = ruuid(kNode, ids[r.Intn(nn)])
 				}
 				exits = append(exits, e)
